@@ -1,7 +1,7 @@
 (* Model/ChowLiuRun.v — exact-rational (Qc) instance of Model/ChowLiu.v and the runner used by the
    C11 correspondence (harness/c11.py, engine E1).  Executable definitions only. *)
 From Coq Require Import List Arith ZArith QArith Qabs Qcanon Bool.
-From DV Require Import Model.Core Model.Clt Model.QcInst Model.ChowLiu.
+From DV Require Import Model.Core Model.Clt Model.QcInst Model.ChowLiu Model.MstCert.
 Import ListNotations.
 
 Definition zq (z : Z) : Qc := Q2Qc (inject_Z z).
@@ -50,9 +50,10 @@ Definition flag (b : bool) (code : Z) : Z := if b then 0%Z else code.
      1 params differ from the smoothed conditionals     2 predecessor vector is not a spanning tree rooted at root
      4 weight < brute-force maximum - slack (n <= 7)    8 weight < Prim reference - slack
     16 bfs order invalid                                32 fitted model tree malformed or all-missing value <> 1
-    64 likelihood of a query row differs               128 data not a binary n-column matrix *)
+    64 likelihood of a query row differs               128 data not a binary n-column matrix
+   256 cycle-property certificate (every n): some pair (u,v) is not connected by tree edges of weight >= w u v - eps *)
 Definition run_c11case (d : dat) (alpha : Qc) (root : nat) (par : list (option nat)) (bfs : list nat)
-    (params : list (list (list Qc))) (W : list (list Z)) (slack : Z) (scope : list nat)
+    (params : list (list (list Qc))) (W : list (list Z)) (slack eps : Z) (scope : list nat)
     (queries : list (list (option Z) * Qc)) : Z :=
   let n := length par in
   let w := wfun W in
@@ -65,4 +66,5 @@ Definition run_c11case (d : dat) (alpha : Qc) (root : nat) (par : list (option n
    + flag (bfs_ok n root par bfs) 16
    + flag (if tree_ok then clt_shape_ok Qc 0%Qc c && Qc_eq_bool (qclt_val c row_none) 1%Qc else true) 32
    + flag (if tree_ok then forallb (fun qr => close_par (snd qr) (qclt_lik c (mkrow (fst qr)))) queries else true) 64
-   + flag (binary_data n d) 128)%Z.
+   + flag (binary_data n d) 128
+   + flag (mst_cert w par n root eps) 256)%Z.
